@@ -993,7 +993,9 @@ static void transport_history(Ctx &c) {
       got.push_back(body);
       start = i + 1;
     }
-    VP_CHECK(c, start == done, "transport-frames", "%s: %zu finished bytes do not end in a delimiter", when, done);
+    // closed blocks of a still unfinished application message count as finished bytes too (a full COBS block of 254 data bytes
+    // is closed without a delimiter): only without an open message must the finished bytes end in a delimiter
+    VP_CHECK(c, start == done || app_open, "transport-frames", "%s: %zu finished bytes do not end in a delimiter", when, done);
     VP_CHECK(c, got.size() == want.size(), "transport-frames", "%s: the output holds %zu finished messages, %zu were accepted", when, got.size(), want.size());
     for (size_t i = 0; i < got.size(); i++)
       VP_CHECK(c, got[i] == want[i], "transport-frames", "%s: message %zu in the output is %s, accepted was %s", when, i, hex(got[i].data(), got[i].size(), 40).c_str(), hex(want[i].data(), want[i].size(), 40).c_str());
